@@ -99,6 +99,63 @@ def shape_cases(rng, n):
     return cases
 
 
+def layer_cases(rng, n):
+    """stops at which a layer of the sieve switches on or off: isqrt(stop) crossing the largest pre-sieved prime (163: EratSmall
+    is initialised above it), the start of SievingPrimes (165 = 163 + 2) and its square (SievingPrimes builds its tiny sieve iff
+    165^2 <= isqrt(stop), i.e. stop >= 165^4), the usual EratSmall / EratMedium limits (0.2 * L1, 3 * sieve size); short intervals"""
+    ts = [163, 164, 165, 166, 167, 169, 165 * 165, 165 * 165 + 1, 167 * 167, 6553, 6554, 9830, 9831, 49152, 49153, 98304, 3145728 // 30]
+    cases = []
+    for _ in range(n):
+        t = rng.choice(ts)
+        stop = rng.choice([t * t - 1, t * t, t * t, t * t + 1, (t + 1) * (t + 1) - 1, t * t + rng.below(2 * t + 1)])
+        a = max(0, stop - rng.choice([0, 30, 1000, 60000, 400000]) - rng.below(100))
+        cases.append((a, stop, rng.choice(SIEVE_SIZES), "layer threshold"))
+    return cases
+
+
+def ebig_units(rng, n):
+    """inputs of the EBIG unit (the real EratBig vs the model's bucket machine): (log2 sieve size, segments, [(prime, multipleIndex,
+    wheelIndex)], why).  The machine only uses prime / 30, so the "primes" need not be prime.  Besides arbitrary states (any wheel
+    index, any index within one wheel step beyond the segment) the boundary of storeSievingPrime's sizing is aimed at: 10 * (prime / 30)
+    a multiple of the sieve size, the multiple in the last bytes of the segment, every wheel index (factor 10 and correct up to 10)"""
+    out = []
+    for _ in range(n):
+        lg = rng.between(4, 13) if rng.chance(4, 5) else rng.between(14, 16)
+        size = 1 << lg
+        trip = []
+        for _k in range(rng.between(1, 6)):
+            pr_ = oracle.next_prime_ge(rng.choice([31, 37, 100, 1000, 5000, 30000, 10 ** 6, 10 ** 8]) + rng.below(400))
+            if (pr_ // 3) // size > 50000:      # keep buckets_ (one list per future segment) at a few ten thousand entries
+                pr_ = oracle.next_prime_ge(31 + rng.below(5000))
+            sp = pr_ // 30
+            trip.append((pr_, rng.below(size + sp * 10 + 10), rng.below(384)))
+        out.append((lg, rng.between(1, 6), trip, "arbitrary"))
+    for lg in (4, 6):
+        size = 1 << lg
+        for j in (1, 3):
+            sp = j * size // 2
+            for w in range(384):
+                out.append((lg, 2, [(30 * sp + 7, size - 1 - (w + j) % 11, w)], "sizing boundary"))
+    return out
+
+
+def emed_units(rng, n):
+    """arbitrary inputs of the EMED unit: (sieve bytes, segments, [(prime, multipleIndex, wheelIndex < 64)])"""
+    out = []
+    for _ in range(n):
+        size = rng.between(1, 3000)
+        trip = []
+        for _k in range(rng.between(1, 6)):
+            pr_ = oracle.next_prime_ge(rng.choice([7, 31, 1000, 30000, 10 ** 6]) + rng.below(400))
+            trip.append((pr_, rng.below(size + 6 * (pr_ // 30) + 6), rng.below(64)))
+        out.append([size, rng.between(1, 5), trip])
+    return out
+
+
+def unit_line(kind, c):
+    return "%s %d %d %s" % (kind, c[0], c[1], " ".join("%d %d %d" % t for t in c[2]))
+
+
 def exhaustive_small(limit=70):
     return [(a, b, 16, "exhaustive small") for a in range(0, limit) for b in range(a, limit)]
 
